@@ -196,6 +196,9 @@ pub fn run(run: &mut Run) {
     let n = run.budget(40_000, 2_000_000);
     // version verification on and off, with VER packets of any version in the history: a rejected VER is "another packet" too
     run.prop(&Histories, session_strategy(12, 8, 3, true, None), n);
+    // long histories: hundreds of packets and keep-alives on one connection
+    let n = run.budget(400, 20_000);
+    run.prop(&Histories, session_strategy(400, 6, 1, true, None), n);
     let n = run.budget(1_000, 50_000);
     run.prop(&Histories, session_strategy(200, 10, 1, true, Some(false)), n);
 }
